@@ -173,6 +173,11 @@ func main() {
 		crashChild(os.Args[2:])
 		return
 	}
+	if len(os.Args) > 1 && os.Args[1] == "tick" {
+		os.Args = append(os.Args[:1], os.Args[2:]...)
+		tickMain()
+		return
+	}
 	if len(os.Args) > 1 && os.Args[1] == "conc" {
 		os.Args = append(os.Args[:1], os.Args[2:]...)
 		concMain()
@@ -222,6 +227,10 @@ func main() {
 		g := &gen{rnd: rnd, hostile: *hostile, families: strings.Split(*fams, ","), dbLevel: m == "db"}
 		fmt.Fprintf(out, "# trace %d %s\n", t, m)
 		for i := 0; i < *length; i++ {
+			if rnd.Intn(40) == 0 {
+				runInvalid(db, m, rnd, g)
+				continue
+			}
 			runStep(db, m, g.next())
 		}
 		db.Close()
